@@ -4,7 +4,7 @@
 From Coq Require Import NArith ZArith List Bool Lia.
 Import ListNotations.
 Require Import UV.Gen.Consts UV.Gen.C17Consts UV.Mcount.Model UV.Mcount.Forest UV.C17.Model.
-Require Export UV.C17.Erase UV.C17.Read UV.C17.Watch UV.C17.Drop UV.C17.More UV.C17.Small UV.C17.Room UV.C17.Stream.
+Require Export UV.C17.Erase UV.C17.Read UV.C17.Watch UV.C17.Drop UV.C17.More UV.C17.Small UV.C17.Room UV.C17.Stream UV.C17.Reader.
 Local Open Scope N_scope.
 
 (* the model's payload word counts are the sizes of the structs in utils/event.h, the table order and
